@@ -2,7 +2,7 @@
 when their content changes.  Returns a list of (unit, error) for units that could not be translated."""
 import os, sys
 sys.path.insert(0, os.path.dirname(os.path.abspath(__file__)))
-import c2lean, vlib
+import c2lean, c2lean2, vlib
 
 INC = ['-I' + os.path.join(vlib.REPO, 'include'), '-DNDEBUG']
 UNITS = {
@@ -15,13 +15,23 @@ UNITS = {
     'Util': (os.path.join(vlib.REPO, 'librfn/util.c'), ['cyclecmp32']),
 }
 
+# second-generation units (tools/c2lean2.py: pointers, memory, atomics with their sequential meaning, unrolled loops)
+UNITS2 = {
+    'MessageqSeq': (os.path.join(vlib.REPO, 'librfn/messageq.c'),
+                    ['messageq_init', 'messageq_claim', 'messageq_send', 'messageq_receive', 'messageq_release', 'messageq_empty'], 2),
+}
+
 def regen(units):
     errors = []
     for u in units:
-        path, fns = UNITS[u]
         dst = os.path.join(vlib.LEAN, 'Librfn', 'Gen', u + '.lean')
         try:
-            text = c2lean.generate(path, fns, 'Librfn.Gen.' + u, INC)
+            if u in UNITS2:
+                path, fns, fuel = UNITS2[u]
+                text = c2lean2.generate(path, fns, 'Librfn.Gen.' + u, INC, fuel=fuel)
+            else:
+                path, fns = UNITS[u]
+                text = c2lean.generate(path, fns, 'Librfn.Gen.' + u, INC)
         except Exception as e:  # translator error = broken tie, reported by the caller
             errors.append((u, f'{type(e).__name__}: {e}'))
             continue
@@ -29,7 +39,7 @@ def regen(units):
     return errors
 
 if __name__ == '__main__':
-    errs = regen(sys.argv[1:] or list(UNITS))
+    errs = regen(sys.argv[1:] or list(UNITS) + list(UNITS2))
     for e in errs:
         print('ERROR', e)
     sys.exit(1 if errs else 0)
